@@ -69,3 +69,39 @@ package decoders
 //@ at call raw.DecodeHeader assert [whole-trimmed-line] arg(headerString) == result_of(strings.TrimSpace, 0)
 //@ at call a.Setup#0 assert [request-bytes-and-tag] len(arg(buff)) == result_of(raw.DecodeHeader, 0) && arg(tag) == result_of(raw.DecodeHeader, 1) && arg(header) == d.decodedConfigHeaders
 //@ modifies d.ammoNum, d.passNum
+
+// ---------------------------------------------------------------- uri
+
+//@ func (d *uriDecoder) readLine
+//@ props C13 C07 C09
+//@ env pooltype(d.pool, *ammo.Ammo)
+//@ env [config-header-keys-are-canonical] forall_t(q, string, imp(has(d.decodedConfigHeaders, q), canon(q) == q))
+//@ env commonHeader != nil
+//@ ensures [blank-line-yields-nothing] imp(len(strings.TrimSpace(data0)) == 0, result0 == nil && result1 == nil)
+//@ ensures [header-line-yields-no-ammo] imp(calls(util.DecodeHeader) == 1, result0 == nil)
+//@ loop 0 invariant [file-headers-have-priority] header != commonHeader && forall_t(q, string, imp(has(commonHeader, q), has(header, q) && header[q] == commonHeader[q]))
+//@ loop 1 invariant [distinct-maps] header != commonHeader
+//@ loop 1 invariant [key-not-in-file-headers] !has(commonHeader, k)
+//@ loop 1 invariant [key-canonical] canon(k) == k
+//@ loop 1 invariant [file-headers-have-priority] forall_t(q, string, imp(has(commonHeader, q), has(header, q) && header[q] == commonHeader[q]))
+//@ at call a.Setup assert [get-request] arg(method) == "GET" && arg(url) == result_of(strings.Cut, 0) && arg(tag) == result_of(strings.Cut, 1) && len(arg(body)) == 0
+//@ at call a.Setup assert [file-headers-have-priority] forall_t(q, string, imp(has(commonHeader, q), has(arg(header), q) && arg(header)[q] == commonHeader[q]))
+//@ at call strings.Cut assert [uri-then-tag] arg(a0) == result_of(strings.TrimSpace, 0) && arg(a1) == " "
+//@ at call commonHeader.Set assert [in-file-header-line] arg(a0) == result_of(util.DecodeHeader, 0) && arg(a1) == result_of(util.DecodeHeader, 1)
+//@ modifies elems(commonHeader)
+
+//@ func (d *uriDecoder) Scan
+//@ props C08 C13 C07
+//@ ensures [limit] imp(d.config.Limit != 0 && old(d.ammoNum) >= d.config.Limit, result1 == ErrAmmoLimit && d.ammoNum == old(d.ammoNum) && d.passNum == old(d.passNum))
+//@ ensures [count] imp(result1 == nil, d.ammoNum == old(d.ammoNum) + 1)
+//@ ensures [delivers-an-entry] imp(result1 == nil, result0 != nil)
+//@ ensures [error-keeps-count] imp(result1 != nil, d.ammoNum == old(d.ammoNum) && result0 == nil)
+//@ ensures [no-delivery-across-the-pass-bound] imp(result1 == nil && d.config.Passes != 0 && old(d.passNum) < d.config.Passes, d.passNum < d.config.Passes)
+//@ ensures [passes-count-up] d.passNum >= old(d.passNum)
+//@ loop 0 invariant d.ammoNum == old(d.ammoNum) && d.passNum >= old(d.passNum)
+//@ loop 0 invariant imp(d.config.Passes != 0 && old(d.passNum) < d.config.Passes, d.passNum < d.config.Passes)
+//@ loop 0 invariant imp(d.passNum == old(d.passNum), d.Header == old(d.Header)) && imp(d.passNum > old(d.passNum), d.Header != old(d.Header) && fresh(d.Header))
+//@ loop 0 invariant d.scanner == old(d.scanner) || fresh(d.scanner)
+//@ loop 0 step [headers-forgotten-at-new-pass] imp(d.passNum != iter(d.passNum), d.Header != iter(d.Header) && len(d.Header) == 0)
+//@ at call d.readLine assert [every-line-with-the-current-headers] arg(data) == result_of(d.scanner.Text, 0) && arg(commonHeader) == d.Header
+//@ modifies d.ammoNum, d.passNum, d.Header, elems(d.Header), d.line, d.scanner, scanErr[d.scanner], scanText[d.scanner]
